@@ -294,3 +294,24 @@ Proof.
   rewrite map_length. fold n. f_equal. apply (sum_n_ext (A:=A64r)). intros k Hk.
   rewrite (Ea k Hk), nth_map_FR_s. reflexivity.
 Qed.
+
+(* ------------------------------------------------------------------ what the code does with NaN (by computation)
+   f64::max(result, x) ignores a NaN x and the running maximum starts at 0.0, so norm_1 / norm_inf skip every column /
+   row whose sum is NaN and norm_max skips NaN entries, while norm_frob propagates it.  Definiteness and the comparison
+   nx <= ni of the real-number laws therefore FAIL at the float instance on matrices containing NaN:
+     [[NaN]]     : norm_1 = norm_inf = norm_max = 0.0 although the matrix is not zero, norm_frob = NaN
+     [[NaN, 1]]  : norm_1 = 1, norm_inf = 0 < norm_max = 1
+   (the real code returns the same values: the tie is bit for bit; checked on the executor, kind mat.norms). *)
+Lemma matnorm_float_nan_ignored_lemma :
+  let m1 := @mkM AF [nan] 1 1 in
+  let m2 := @mkM AF [nan; 1%float] 1 2 in
+  wf m1 /\ wf m2 /\ PrimFloat.is_nan (entry (A:=AF) m1 0 0) = true /\
+  mnorm_1 (S:=SAF) m1 = Ok 0%float /\ mnorm_inf (S:=SAF) m1 = Ok 0%float /\ mnorm_max (S:=SAF) m1 = Ok 0%float /\
+  (exists x, mnorm_frob (S:=SAF) m1 = Ok x /\ PrimFloat.is_nan x = true) /\
+  mnorm_1 (S:=SAF) m2 = Ok 1%float /\ mnorm_inf (S:=SAF) m2 = Ok 0%float /\ mnorm_max (S:=SAF) m2 = Ok 1%float.
+Proof.
+  cbn zeta. split; [reflexivity|]. split; [reflexivity|]. split; [vm_compute; reflexivity|].
+  split; [vm_compute; reflexivity|]. split; [vm_compute; reflexivity|]. split; [vm_compute; reflexivity|].
+  split; [eexists; split; [vm_compute; reflexivity|vm_compute; reflexivity]|].
+  split; [vm_compute; reflexivity|]. split; vm_compute; reflexivity.
+Qed.
